@@ -76,7 +76,14 @@ static bool ReceivedNextBunch(struct utcp_connection* fd, struct utcp_bunch_node
 		else if (ret == partial_available)
 		{
 			HandleBunchCount = get_partial_bunch(utcp_channel, HandleBunch, _countof(HandleBunch));
-			assert(HandleBunchCount > 0);
+			if (HandleBunchCount <= 0)
+			{
+				// More fragments than can be handed over in one callback: drop the whole group (the node is part of it) and close.
+				utcp_log(Warning, "[%s]Partial bunch has too many fragments", fd->debug_name);
+				clear_partial_data(utcp_channel);
+				utcp_mark_close(fd, BunchOverflow);
+				return false;
+			}
 		}
 		else
 		{
